@@ -6,6 +6,7 @@ import (
 	"go/types"
 	"os"
 	"strings"
+	"time"
 
 	"golang.org/x/tools/go/ssa"
 )
@@ -68,8 +69,8 @@ type Interp struct {
 	harness    string
 	samples    []string
 	logs       []string
-	codecs     map[string]Value // codec-pair memo: blob var name -> encoded value
-	memo       map[string]Value // generic per-path memo for stubs
+	codecs     map[string]interface{} // codec-pair registry: blob var name -> *codecEntry
+	memo       map[string]Value       // generic per-path memo for stubs
 	funcsHit   map[*ssa.Function]bool
 	hb         havocBounds
 	inInit     int
@@ -97,7 +98,7 @@ func (in *Interp) resetPath(prefix []int) {
 	in.curFrame = nil
 	in.samples = nil
 	in.logs = nil
-	in.codecs = map[string]Value{}
+	in.codecs = map[string]interface{}{}
 	in.memo = map[string]Value{}
 	in.hb = defaultHavocBounds
 	in.inInit = 0
@@ -132,7 +133,24 @@ func (in *Interp) checkWith(c *Term) string {
 	txt := in.pr.Print(c)
 	in.sol.Send(in.pr.Flush())
 	in.sol.Send("(push 1)\n(assert " + txt + ")\n")
+	t0 := time.Now()
 	r := in.sol.CheckSat()
+	if d := time.Since(t0); d > 2*time.Second && os.Getenv("SYMGO_PROGRESS") != "" {
+		fmt.Fprintf(os.Stderr, "SLOW %.1fs %s at %s\n  query: %s\n  pc: %d conjuncts\n", d.Seconds(), r, in.where(), trunc(txt, 400), len(in.pc))
+		if os.Getenv("SYMGO_SLOWDUMP") != "" {
+			var sb strings.Builder
+			pr := NewPrinter()
+			var as []string
+			for _, c := range in.pc {
+				as = append(as, "(assert "+pr.Print(c)+")")
+			}
+			as = append(as, "(assert "+pr.Print(c)+")")
+			sb.WriteString(pr.Flush())
+			sb.WriteString(strings.Join(as, "\n"))
+			sb.WriteString("\n(check-sat)\n")
+			os.WriteFile(fmt.Sprintf("%s.%d.smt2", os.Getenv("SYMGO_SLOWDUMP"), time.Now().UnixNano()), []byte(sb.String()), 0o644)
+		}
+	}
 	in.sol.Send("(pop 1)\n")
 	in.E.countQuery()
 	if r == "unknown" {
@@ -176,6 +194,7 @@ func (in *Interp) Branch(c *Term) bool {
 	copy(alt, in.trace)
 	alt[len(in.trace)] = 0
 	in.E.pushFor(in.curHarness, alt)
+	in.E.noteFork(in.where())
 	in.trace = append(in.trace, 1)
 	in.assertPC(c)
 	return true
@@ -193,6 +212,7 @@ func (in *Interp) Choose(n int) int {
 		return d
 	}
 	in.pos++
+	in.E.noteFork("choose@" + in.where())
 	for k := n - 1; k >= 1; k-- {
 		alt := make([]int, len(in.trace)+1)
 		copy(alt, in.trace)
@@ -270,6 +290,13 @@ func (in *Interp) where() string {
 		return in.curFrame.fn.String()
 	}
 	return "?"
+}
+
+func trunc(s string, n int) string {
+	if len(s) > n {
+		return s[:n] + "…"
+	}
+	return s
 }
 
 func shortPath(p string) string {
@@ -470,6 +497,9 @@ func (in *Interp) runBlock(fr *frame) {
 	}
 	for ; i < len(b.Instrs); i++ {
 		in.steps++
+		if in.steps&1023 == 0 && in.E.stop {
+			panic(in.abort("exploration stopped (time budget or path cap)"))
+		}
 		if in.steps > in.E.Cfg.MaxSteps {
 			panic(in.abort("step limit %d exceeded in %s", in.E.Cfg.MaxSteps, fr.fn))
 		}
@@ -597,15 +627,15 @@ func (in *Interp) exec(fr *frame, instr ssa.Instruction) {
 	switch x := instr.(type) {
 	case *ssa.DebugRef:
 	case *ssa.UnOp:
-		fr.env[x] = in.unop(fr, x)
+		fr.env[x] = in.forceTop(in.unop(fr, x))
 	case *ssa.BinOp:
-		fr.env[x] = in.binop(x.Op, x.X.Type(), in.get(fr, x.X), in.get(fr, x.Y), x.Y.Type())
+		fr.env[x] = in.forceTop(in.binop(x.Op, x.X.Type(), in.get(fr, x.X), in.get(fr, x.Y), x.Y.Type()))
 	case *ssa.Call:
-		fr.env[x] = in.callCommon(fr, &x.Call)
+		fr.env[x] = in.forceTop(in.callCommon(fr, &x.Call))
 	case *ssa.Alloc:
 		p := new(Value)
 		*p = in.zero(x.Type().(*types.Pointer).Elem())
-		fr.env[x] = p
+		fr.env[x] = in.forceTop(p)
 	case *ssa.Store:
 		p := in.get(fr, x.Addr).(*Value)
 		if p == nil {
@@ -621,17 +651,17 @@ func (in *Interp) exec(fr *frame, instr ssa.Instruction) {
 		if !ok {
 			panic(in.abort("FieldAddr on %T", *p))
 		}
-		fr.env[x] = &s[x.Field]
+		fr.env[x] = in.forceTop(&s[x.Field])
 	case *ssa.Field:
-		fr.env[x] = copyVal(in.get(fr, x.X).(Struct)[x.Field])
+		fr.env[x] = in.forceTop(copyVal(in.get(fr, x.X).(Struct)[x.Field]))
 	case *ssa.IndexAddr:
-		fr.env[x] = in.indexAddr(in.get(fr, x.X), in.get(fr, x.Index).(*Term), x.Index.Type())
+		fr.env[x] = in.forceTop(in.indexAddr(in.get(fr, x.X), in.get(fr, x.Index).(*Term), x.Index.Type()))
 	case *ssa.Index:
-		fr.env[x] = in.index(in.get(fr, x.X), in.get(fr, x.Index).(*Term), x.Index.Type())
+		fr.env[x] = in.forceTop(in.index(in.get(fr, x.X), in.get(fr, x.Index).(*Term), x.Index.Type()))
 	case *ssa.Lookup:
-		fr.env[x] = in.lookup(x, in.get(fr, x.X), in.get(fr, x.Index))
+		fr.env[x] = in.forceTop(in.lookup(x, in.get(fr, x.X), in.get(fr, x.Index)))
 	case *ssa.Slice:
-		fr.env[x] = in.slice(fr, x)
+		fr.env[x] = in.forceTop(in.slice(fr, x))
 	case *ssa.MakeSlice:
 		n := in.concreteInt(in.get(fr, x.Len).(*Term), "make slice length")
 		c := in.concreteInt(in.get(fr, x.Cap).(*Term), "make slice cap")
@@ -644,27 +674,27 @@ func (in *Interp) exec(fr *frame, instr ssa.Instruction) {
 		for i := range full {
 			full[i] = in.zero(et)
 		}
-		fr.env[x] = s
+		fr.env[x] = in.forceTop(s)
 	case *ssa.MakeMap:
-		fr.env[x] = &Map{T: under(x.Type()).(*types.Map)}
+		fr.env[x] = in.forceTop(&Map{T: under(x.Type()).(*types.Map)})
 	case *ssa.MakeClosure:
 		env := make([]Value, len(x.Bindings))
 		for i, b := range x.Bindings {
 			env[i] = in.get(fr, b)
 		}
-		fr.env[x] = &Closure{Fn: x.Fn.(*ssa.Function), Env: env}
+		fr.env[x] = in.forceTop(&Closure{Fn: x.Fn.(*ssa.Function), Env: env})
 	case *ssa.MakeInterface:
-		fr.env[x] = Iface{T: x.X.Type(), V: copyVal(in.get(fr, x.X))}
+		fr.env[x] = in.forceTop(Iface{T: x.X.Type(), V: copyVal(in.get(fr, x.X))})
 	case *ssa.ChangeInterface:
-		fr.env[x] = in.get(fr, x.X)
+		fr.env[x] = in.forceTop(in.get(fr, x.X))
 	case *ssa.ChangeType:
-		fr.env[x] = in.get(fr, x.X)
+		fr.env[x] = in.forceTop(in.get(fr, x.X))
 	case *ssa.Convert:
-		fr.env[x] = in.convert(x.X.Type(), x.Type(), in.get(fr, x.X))
+		fr.env[x] = in.forceTop(in.convert(x.X.Type(), x.Type(), in.get(fr, x.X)))
 	case *ssa.TypeAssert:
-		fr.env[x] = in.typeAssert(x, in.get(fr, x.X).(Iface))
+		fr.env[x] = in.forceTop(in.typeAssert(x, in.get(fr, x.X).(Iface)))
 	case *ssa.Extract:
-		fr.env[x] = in.get(fr, x.Tuple).(Tuple)[x.Index]
+		fr.env[x] = in.forceTop(in.get(fr, x.Tuple).(Tuple)[x.Index])
 	case *ssa.MapUpdate:
 		m := in.get(fr, x.Map).(*Map)
 		if m == nil {
@@ -672,9 +702,9 @@ func (in *Interp) exec(fr *frame, instr ssa.Instruction) {
 		}
 		in.mapSet(m, in.get(fr, x.Key), copyVal(in.get(fr, x.Value)))
 	case *ssa.Range:
-		fr.env[x] = in.rangeIter(in.get(fr, x.X))
+		fr.env[x] = in.forceTop(in.rangeIter(in.get(fr, x.X)))
 	case *ssa.Next:
-		fr.env[x] = in.next(x, in.get(fr, x.Iter))
+		fr.env[x] = in.forceTop(in.next(x, in.get(fr, x.Iter)))
 	case *ssa.Defer:
 		args := make([]Value, len(x.Call.Args))
 		for i, a := range x.Call.Args {
@@ -696,7 +726,7 @@ func (in *Interp) exec(fr *frame, instr ssa.Instruction) {
 		copy(arr, sl[:n])
 		p := new(Value)
 		*p = arr
-		fr.env[x] = p
+		fr.env[x] = in.forceTop(p)
 	case *ssa.Go, *ssa.Send, *ssa.Select, *ssa.MakeChan:
 		panic(in.abort("unsupported instruction %T in %s (concurrency is not modelled)", instr, fr.fn))
 	default:
